@@ -42,6 +42,10 @@ def main():
         sys.exit(0)
 
     hashseeds = a.hashseeds.split(',') if a.hashseeds else (['0'] if a.tier == 'quick' else ['0', '1', '2'])
+    if not a.hashseeds and a.tier != 'quick':
+        # a module may restrict the thorough tier to fewer interpreter hash seeds (stated in its BOUNDS) when one pass is very long
+        import importlib
+        hashseeds = list(getattr(importlib.import_module('mc.checks.' + pid.lower()), 'THOROUGH_HASHSEEDS', hashseeds))
     evs, rc, alllines = [], 0, []
     if os.environ.get('VERIF_SCRATCH'): os.makedirs(os.environ['VERIF_SCRATCH'], exist_ok=True)
     # replays of earlier runs are stale: the directory only holds the violations of this run
